@@ -239,21 +239,25 @@ void BatchSpanProcessor::Export()
   }
 #endif /* ENABLE_THREAD_INSTRUMENTATION_PREVIEW */
 
+  // ForceFlush bookkeeping for this call: the latest ticket seen, and how many of the records that were queued when
+  // it was first seen still have to be exported before the ticket may be published.
+  std::uint64_t flush_ticket = 0;
+  size_t flush_remaining     = 0;
+
   do
   {
     std::vector<std::unique_ptr<Recordable>> spans_arr;
-    size_t num_records_to_export;
     std::uint64_t notify_force_flush =
         synchronization_data_->force_flush_pending_sequence.load(std::memory_order_acquire);
-    if (notify_force_flush)
+    // One snapshot of the queue size per iteration; a batch never exceeds max_export_batch_size_.
+    const size_t buffer_size = buffer_.size();
+    if (notify_force_flush > flush_ticket)
     {
-      num_records_to_export = buffer_.size();
+      flush_ticket    = notify_force_flush;
+      flush_remaining = buffer_size;
     }
-    else
-    {
-      num_records_to_export =
-          buffer_.size() >= max_export_batch_size_ ? max_export_batch_size_ : buffer_.size();
-    }
+    const size_t num_records_to_export =
+        buffer_size >= max_export_batch_size_ ? max_export_batch_size_ : buffer_size;
 
     if (num_records_to_export == 0)
     {
@@ -275,7 +279,11 @@ void BatchSpanProcessor::Export()
                     });
 
     exporter_->Export(nostd::span<std::unique_ptr<Recordable>>(spans_arr.data(), spans_arr.size()));
-    NotifyCompletion(notify_force_flush, exporter_, synchronization_data_);
+    flush_remaining = flush_remaining > num_records_to_export ? flush_remaining - num_records_to_export : 0;
+    if (flush_remaining == 0)
+    {
+      NotifyCompletion(notify_force_flush, exporter_, synchronization_data_);
+    }
   } while (true);
 
 #ifdef ENABLE_THREAD_INSTRUMENTATION_PREVIEW
